@@ -6,7 +6,7 @@ From Coq Require Import List ZArith Bool.
 From LJT Require Import model.T81Spec model.T81Arith gen.GenAricom gen.GenT81Src proofs.T81SrcProofs proofs.T81StuffProofs proofs.T81ParseProofs proofs.T81LenProofs
   proofs.T81BlockProofs proofs.T81ScanProofs proofs.T81HuffProofs proofs.T81WriterProofs proofs.T81WrittenProofs proofs.T81CompleteProofs proofs.T81ParseInvProofs proofs.T81Examples
   proofs.T81ArithProofs proofs.T81QMProofs proofs.T81AricomProofs proofs.T81ArithExamples
-  proofs.T81ArithProofsIdeal proofs.T81ArithProofsBytes proofs.T81ArithProofsScan proofs.T81LosslessProofs proofs.T81ProgProofs proofs.T81ProgWriterProofs.
+  proofs.T81ArithProofsIdeal proofs.T81ArithProofsBytes proofs.T81ArithProofsScan proofs.T81LosslessProofs proofs.T81ProgProofs proofs.T81ProgWriterProofs proofs.T81ArithRefineProofs.
 Import ListNotations.
 Local Open Scope Z_scope.
 
@@ -252,6 +252,40 @@ Theorem C04_arith_scan_codec : forall cs n per blocks,
   adec_intervals cs n (intervals per (map fst blocks)) (map (aenc_interval cs n) (intervals per blocks)) = Some blocks.
 Proof. exact adec_enc_scan. Qed.
 Print Assumptions C04_arith_scan_codec.
+
+(* (12) G.1.3.3, SOF10 AC refinement: for one block of a band Ss..Se whose arrays hold the
+   approximation at Ah = Al + 1 (tr: sign-magnitude truncation) -- coefficients with zero and with
+   non-zero history in any mix --, the decoding procedure inverts the coding procedure: the EOB
+   decision is coded and decoded only for k > EOBx and never directly after a zero, EOB (encoder,
+   from the coefficients) and EOBx (encoder from the coefficients, decoder from its arrays) are the
+   model's own last_idx computations; zero-history: zero / newly non-zero + fixed-estimate sign;
+   non-zero history: correction decision.  The arrays then hold the approximation at Al and the
+   remaining decisions are still reproduced.  First for ANY decoder state that reproduces the
+   decision list (the conclusion of (10)), then on the bytes of the D.1 encoder by (10). *)
+Theorem C04_arith_refine_binarisation : forall tb w r c al ss se coef m rest q,
+  0 <= r * w + c -> 0 <= al -> 1 <= ss -> ss <= se -> se <= 63 ->
+  (forall j, ss <= j <= se -> pget m w r c j = tr (al + 1) (coef j)) ->
+  (let ds := enc_ac_refine 130 tb coef al se
+         (last_idx (fun k => negb (Z.abs (coef k) / 2 ^ al =? 0)) ss se)
+         (last_idx (fun k => negb (Z.abs (coef k) / 2 ^ (al + 1) =? 0)) ss se) ss false ++ rest in
+   fst (qm_run (map fst ds) q) = map snd ds) ->
+  exists m' q',
+    dec_ac_refine 130 tb m w r c al se (last_idx (fun k => negb (pget m w r c k =? 0)) ss se) ss false q = Some (m', q') /\
+    fst (qm_run (map fst rest) q') = map snd rest /\ forall j, ss <= j <= se -> pget m' w r c j = tr al (coef j).
+Proof. exact ac_refine_block. Qed.
+Print Assumptions C04_arith_refine_binarisation.
+
+Theorem C04_arith_refine_roundtrip : forall tb w r c al ss se coef m rest,
+  0 <= r * w + c -> 0 <= al -> 1 <= ss -> ss <= se -> se <= 63 ->
+  (forall j, ss <= j <= se -> pget m w r c j = tr (al + 1) (coef j)) ->
+  exists m' q',
+    dec_ac_refine 130 tb m w r c al se (last_idx (fun k => negb (pget m w r c k =? 0)) ss se) ss false
+      (qm_init_dec (qm_encode_all (enc_ac_refine 130 tb coef al se
+         (last_idx (fun k => negb (Z.abs (coef k) / 2 ^ al =? 0)) ss se)
+         (last_idx (fun k => negb (Z.abs (coef k) / 2 ^ (al + 1) =? 0)) ss se) ss false ++ rest))) = Some (m', q') /\
+    fst (qm_run (map fst rest) q') = map snd rest /\ forall j, ss <= j <= se -> pget m' w r c j = tr al (coef j).
+Proof. exact ac_refine_block_bytes. Qed.
+Print Assumptions C04_arith_refine_roundtrip.
 
 Example C04_example_qm_roundtrip :
   qm_decode_list ex_decisions (qm_encode_all ex_decisions) = map snd ex_decisions /\
